@@ -22,6 +22,7 @@ type tcase struct {
 	Len      int    `json:"prefix_len"`
 }
 
+var thoroughTier bool
 var wlCache map[string]families.Workload
 var fileCache = map[string][]byte{}
 
@@ -30,6 +31,15 @@ func workloads() map[string]families.Workload {
 		wlCache = map[string]families.Workload{}
 		for _, w := range families.Workloads([]string{"mini", "person"}, families.Codecs3()) {
 			wlCache[w.Name] = w
+		}
+		if thoroughTier {
+			for _, tn := range []string{"mini", "person"} {
+				tt := sut.Get(tn)
+				for _, cd := range families.Codecs3() {
+					w := families.Workload{Name: fmt.Sprintf("%s/%s/big", tn, cd), Target: tn, Recs: families.MixedRecords(tt, 150), Batches: []int{70, 50, 30}, Page: 16, Codec: cd}
+					wlCache[w.Name] = w
+				}
+			}
 		}
 		t := sut.Get("flat24")
 		for _, cd := range families.Codecs3() {
@@ -102,6 +112,7 @@ func region(w families.Workload, n int) string {
 }
 
 func run(c *fw.Ctx) {
+	thoroughTier = c.Thorough()
 	var names []string
 	for n := range workloads() {
 		names = append(names, n)
@@ -152,6 +163,7 @@ func classify(msg string) string {
 }
 
 func replay(c *fw.Ctx, kind string, data json.RawMessage) string {
+	thoroughTier = true
 	var tc tcase
 	if err := json.Unmarshal(data, &tc); err != nil {
 		return "bad case: " + err.Error()
